@@ -83,7 +83,9 @@ def make_cases(ctx, rng):
                       # a three-column spectrum key (ScanNr, ret_time, ExpMass), the retention time missing for every third spectrum
                       "key_rt": {3: "missing", 7: "full"}.get(idx % 11),
                       # whole-number masses written as integers in a text table (chunks are type-inferred one by one)
-                      "int_mass": idx % 11 in (1, 5, 9)})
+                      "int_mass": idx % 11 in (1, 5, 9),
+                      # key columns named "Exp Mass" / "ret-time": not Python identifiers (two spectra share each scan number)
+                      "odd_names": idx % 11 in (2, 7)})
         idx += 1
     # several collections, with and without prefixes
     nmulti = 300 if ctx.quick else 3000
@@ -110,7 +112,7 @@ def make_cases(ctx, rng):
                       "rollup": rollup, "decoys": True, "chunk": int(rng.choice([1, 7, 50, n - 1, n, n + 1, 10 ** 6])),
                       "merge_chunk": int(rng.choice([1, 3, 20000])), "fmt": "parquet" if j % 3 == 0 else "pin",
                       "row_group": int(rng.choice([1, 7, 64])), "workers": 1 + j % 4, "key_rt": [None, "missing", None, "full"][j % 4],
-                      "int_mass": j % 4 == 2})
+                      "int_mass": j % 4 == 2, "odd_names": j % 4 == 3})
     # the stand-alone rollup tool on result files of 2-3 prefixed collections
     for j in range(200 if ctx.quick else 2000):
         k = 2 + (j % 2)
@@ -215,6 +217,8 @@ def corruptions(tr, rng):
 
 
 def run(ctx):
+    ctx.liveness("Confidence", unfair_control=not ctx.quick)      # termination under weak fairness (Confidence_live.cfg)
+    ctx.liveness("Pipeline", unfair_control=not ctx.quick)      # termination under weak fairness (Pipeline_live.cfg)
     rng = np.random.default_rng(ctx.seed)
     # ---------------- (M) ----------------
     ctx.phase("model_checking")
@@ -282,6 +286,9 @@ def run(ctx):
     ctx.negative_controls("ConfTrace", "Trace.cfg", bad, name="result-file corruptions %s" % names)
     ctx.assume("tiny tables use a stub PEP algorithm registered in the public PEP_ALGORITHM dict (PEP values are C06's business)")
     ctx.assume("scores handed to assign_confidence are dyadic (rank/4 - 2) so that text round trips are exact")
+    # the property as observed at the command line: how the user's options reach the stages (CliFlow.tla, drivers/cliflow.py)
+    from drivers import cliflow
+    cliflow.family(ctx, "C03")
     return ctx.finish(
         rule="tables = every canonical table (spectra/entities named by first appearance, dense ranks with ties) enumerated by "
              "TLC from ConfGen.tla (<=4 rows, <=3 spectra, <=2 entities per level; quick: all tables of <=3 rows + a seeded sample of "
@@ -292,6 +299,9 @@ def run(ctx):
 
 
 def replay(ctx, case):
+    if isinstance(case.get("case"), dict) and case["case"].get("kind") == "cliflow":
+        from drivers import cliflow
+        return cliflow.replay(ctx, case, "C03")
     c = case["case"]["case"]
     trs = run_case(c)
     for i, t in enumerate(trs):
